@@ -81,9 +81,12 @@ func pMap(m map[string]string) jmap {
 func pAnyMap(m map[string]interface{}) jmap {
 	out := jmap{}
 	for k, v := range m {
-		if s, ok := v.(string); ok {
-			out[tok(k)] = tok(s)
-		} else {
+		switch x := v.(type) {
+		case string:
+			out[tok(k)] = tok(x)
+		case int, int64, uint64, float64:
+			out[tok(k)] = fmt.Sprintf("#%v", x) // a number, abstractly "#<n>"
+		default:
 			out[tok(k)] = fmt.Sprintf("?%T:%v", v, v)
 		}
 	}
@@ -301,14 +304,21 @@ func scRun(fs afero.Fs, kind, file, text string) (out scOut) {
 	return out
 }
 
+// The four main styles are rendered for every case.  Format selection by file extension is independent of the
+// content, so the two further documented extensions are exercised on a share of the cases only (which share
+// rotates with VERIF_SEED): the plain YAML text under `.yml` on every 8th case, a JSON document under `.json` on
+// every 4th.
 var scStyles = []struct {
 	name, ext string
+	every     int
 	render    func(scDesc) string
 }{
-	{"hcl", "hcl", renderHCL},
-	{"hcll", "hcl", renderHCLLocals},
-	{"yaml", "yaml", renderYAML},
-	{"yamla", "yaml", renderYAMLAnchors},
+	{"hcl", "hcl", 1, renderHCL},
+	{"hcll", "hcl", 1, renderHCLLocals},
+	{"yaml", "yaml", 1, renderYAML},
+	{"yamla", "yaml", 1, renderYAMLAnchors},
+	{"yml", "yml", 8, renderYAML},
+	{"json", "json", 4, renderJSON},
 }
 
 func scenconfigMain(args []string) {
@@ -340,6 +350,24 @@ func scenconfigMain(args []string) {
 		}
 		all = append(all, c)
 	}
+	// data files the variable sources name (the provider opens them): created once, before the workers start, and
+	// never rewritten (a concurrent rewrite could be read half-written)
+	for _, c := range all {
+		for _, s := range c.Desc.Sources {
+			if len(s.File) != 1 {
+				continue
+			}
+			name := lit(s.File[0])
+			if ok, _ := afero.Exists(fs, name); ok {
+				continue
+			}
+			// one content for every data file: valid JSON and valid CSV (a substituted token may name the csv
+			// file in one case and the json file in another)
+			if err := afero.WriteFile(fs, name, []byte("[1, 2, 3]\n"), 0644); err != nil {
+				panic(fmt.Sprintf("scenconfig: cannot create data file %q: %v", name, err))
+			}
+		}
+	}
 	// warm up the lazily compiled decode hooks before going parallel
 	_ = coreconfig.Decode(map[string]interface{}{}, &struct{}{})
 	lines := make([]scLine, len(all))
@@ -370,29 +398,20 @@ func scenconfigMain(args []string) {
 }
 
 func scOne(fs afero.Fs, wk, id int, c scCase) (scLine, map[string]string) {
-	// data files the variable sources name (the provider opens them)
-	for _, s := range c.Desc.Sources {
-		if len(s.File) == 1 {
-			content := "id;name\n1;one\n2;two\n"
-			if s.Type == "file/json" {
-				content = `{"list": [1, 2, 3]}`
-			}
-			if err := afero.WriteFile(fs, lit(s.File[0]), []byte(content), 0644); err != nil {
-				panic(fmt.Sprintf("scenconfig: cannot create data file %q: %v", lit(s.File[0]), err))
-			}
-		}
-	}
 	line := scLine{ID: id, Key: c.Key, Out: map[string]scOut{}}
 	rendered := map[string]string{}
 	full := map[string]scOut{}
 	for i, st := range scStyles {
+		if (id+scSeed())%st.every != 0 {
+			continue
+		}
 		text := st.render(c.Desc)
 		rendered[st.name] = text
 		o := scRun(fs, c.Desc.Kind, fmt.Sprintf("/case%d/%s.%s", wk, st.name, st.ext), text)
 		full[st.name] = o
 		line.Out[st.name] = o
 		for _, prev := range scStyles[:i] {
-			if reflect.DeepEqual(full[prev.name], o) {
+			if p, ok := full[prev.name]; ok && reflect.DeepEqual(p, o) {
 				line.Out[st.name] = scOut{Same: prev.name}
 				break
 			}
